@@ -1,6 +1,7 @@
 import ObiVerif.Model.Kmer
 import ObiVerif.Model.DeBruijn
 import ObiVerif.Model.DeBruijnCov
+import ObiVerif.Model.KmerIndex
 import ObiVerif.Driver.Util
 /-! line protocol for C19 (see `harness/c19.go` for the case and result formats) -/
 namespace ObiVerif.Driver.C19
@@ -92,6 +93,25 @@ def runCov (k : Nat) (bits : Nat) (obs : String) (reads : List (List UInt8 × Na
       | _ => if cands.contains obs then obs else "!" ++ "|".intercalate cands
     s!"mw={g.maxWeight} len={g.len} cons={c}"
 
+def showMatch (rep : List (Nat × Nat)) : String :=
+  joinC ((rep.foldr insSorted []).map fun (i, c) => s!"{i}:{c}")
+
+/-- `km`: `NewKmerMap(refs, k, sparse, maxocc)`, `Len`, `Query(last sequence)`, `FilterMinCount(mincount)`.
+`self = true`: the query (the last sequence) is also the last reference.  `ord` = address rank of every sequence. -/
+def runIndex (w k : Nat) (sparse : Bool) (maxocc mincount : Int) (self : Bool) (ord : List Nat)
+    (seqs : List (List UInt8)) : String :=
+  match newKmerMap w k sparse with
+  | .error _ => "panic"
+  | .ok m =>
+    match seqs.reverse with
+    | [] => "bad-op"
+    | q :: rest =>
+      let refs := if self then seqs else rest.reverse
+      let idx := newIndex m maxocc refs
+      let rank := fun i => ord.getD i i
+      let rep := kmQuery m idx rank (seqs.length - 1) q
+      s!"len={idx.len} m={showMatch rep} f={showMatch (filterMinCount rep mincount)}"
+
 def run (line : String) : String :=
   match words line with
   | ["e4", s] =>
@@ -115,6 +135,17 @@ def run (line : String) : String :=
           let ks := normalizedKmerSlice m (s.map lower)
           s!"k={m.kmersize} sp={m.sparseAt} {joinC (ks.map fun x => hexNat x ++ "/" ++ bytesStr (kmerAsString m x))}"
     | _, _, _ => "bad-op"
+  | "km" :: w :: k :: sp :: mo :: mc :: self :: ord :: seqs =>
+    match w.toNat?, k.toNat?, mo.toInt?, mc.toInt?, seqs.mapM unhex with
+    | some w, some k, some mo, some mc, some seqs =>
+      let ord? := if ord = "?" then some [] else (ord.splitOn ",").mapM String.toNat?
+      match ord? with
+      | none => "bad-op"
+      | some ord =>
+        if (w ≠ 64 ∧ w ≠ 128 ∧ w ≠ 256) ∨ k < 1 ∨ k > 200 ∨ (sp ≠ "0" ∧ sp ≠ "1") ∨ (self ≠ "0" ∧ self ≠ "1") ∨ seqs.isEmpty
+        then "bad-op"
+        else runIndex w k (sp == "1") mo mc (self == "1") ord (seqs.map fun s => s.map lower)
+    | _, _, _, _, _ => "bad-op"
   | "gf" :: k :: mn :: reads =>
     match k.toNat?, mn.toInt?, reads.mapM parseRead with
     | some k, some mn, some reads => if k < 1 ∨ k > 32 then "bad-op" else runFilter k mn reads
